@@ -45,8 +45,8 @@ ASSUMPTIONS = [
     "stopping inequalities are the ones documented in the two _solve methods, recomputed from convergence_history and the options",
 ]
 FLOORS = {
-    "quick": {"mass_balance": 1500, "distance_is_cost_of_flux": 1500, "status_honest": 400, "fault:not_converged": 2000, "fault:last_valid_iterate": 2000, "fault:depth:backend": 1000, "fault:depth:after_update": 1000, "fault:depth:backend_returns_nan": 1000, "second_pair_on_same_object": 150, "lab_scale_cg_relative_tolerance_only": 10, "monitoring_active": 1500},
-    "thorough": {"mass_balance": 12000, "distance_is_cost_of_flux": 12000, "status_honest": 3800, "fault:not_converged": 16000, "fault:last_valid_iterate": 16000, "fault:depth:backend": 8000, "fault:depth:after_update": 8000, "fault:depth:backend_returns_nan": 8000, "second_pair_on_same_object": 1500, "lab_scale_cg_relative_tolerance_only": 100, "monitoring_active": 12000},
+    "quick": {"mass_balance": 1500, "distance_is_cost_of_flux": 1500, "status_honest": 400, "fault:not_converged": 2000, "fault:last_valid_iterate": 2000, "fault:depth:backend": 1000, "fault:depth:after_update": 1000, "fault:depth:backend_returns_nan": 1000, "second_pair_on_same_object": 150, "lab_scale_cg_relative_tolerance_only": 10, "masses_as_uint8_images": 100, "monitoring_active": 1500},
+    "thorough": {"mass_balance": 12000, "distance_is_cost_of_flux": 12000, "status_honest": 3800, "fault:not_converged": 16000, "fault:last_valid_iterate": 16000, "fault:depth:backend": 8000, "fault:depth:after_update": 8000, "fault:depth:backend_returns_nan": 8000, "second_pair_on_same_object": 1500, "lab_scale_cg_relative_tolerance_only": 100, "masses_as_uint8_images": 1000, "monitoring_active": 12000},
 }
 SHARD_TIMEOUT = {"quick": 1500, "thorough": 6000}
 
@@ -125,6 +125,10 @@ def run_shard(spec, R):
             h = [x * 1e-3 for x in h]
         a, b = wass.mass_pair(rng, shape, c["mass"])
         m1, m2 = wass.images(darsia, a, b, h)
+        if c["id"] % 5 == 2 and float(min(a.min(), b.min())) >= 0 and float(max(a.max(), b.max())) <= 255:
+            # the same (integer-valued) masses held in 8-bit images, as photographs are
+            m1, m2 = wass.images(darsia, a.astype(np.uint8), b.astype(np.uint8), h)
+            R.count("masses_as_uint8_images")
         M = GridModel(shape, h)
         formulation, backend = FORMS[c["form"]]
         extra = {}
